@@ -143,7 +143,8 @@ class HistogramWorld(World):
             ref = rng.choice(list(self.pool[a].model)) if self.pool[a].model and rng.random() < 0.7 else None
             return {"k": "post_select", "a": a, "outcomes": {str(q): (ref[q] if ref and q < len(ref) else rng.choice("01")) for q in qs}}
         if g == "resample":
-            return {"k": "resample", "a": a, "n": rng.choice([1, 2, 7, 50, 1000, 20000]), "bias": None, "via": rng.choice(["method", "func"])}
+            return {"k": "resample", "a": a, "n": rng.choice([1, 2, 7, 14, 21, 50, 100, 1000, 20000]), "bias": None, "via": rng.choice(["method", "func"]),
+                    "chunk": rng.choice([None, None, 1, 7, 50])}
         if g == "func":
             m = len(next(iter(self.pool[a].model), ""))
             kk = rng.choice(["f_post_select", "f_strip", "f_split", "f_split", "f_split_last"])
@@ -382,6 +383,12 @@ class HistogramWorld(World):
             ns = int(op["n"])
             rngseam.SEAM.arm(vector_bias=op.get("bias"))
             biased_before = rngseam.SEAM.vector_biased
+            import os
+            os.environ["TANGELO_VERIF"] = "1"
+            if op.get("chunk"):          # tuning knob behind the guarded hook: sampling chunk size
+                os.environ["TANGELO_VERIF_CHUNK_SIZE"] = str(int(op["chunk"]))
+                if ns % int(op["chunk"]) == 0:
+                    ctx.probe("C18.n_multiple_of_chunk_size")
             try:
                 if op["via"] == "method":
                     r = ea.h.resample(ns)
@@ -393,11 +400,13 @@ class HistogramWorld(World):
                     got_total = sum(got_counts.values())
                     r = None
             except Exception as ex:
+                os.environ.pop("TANGELO_VERIF_CHUNK_SIZE", None)
                 rngseam.SEAM.arm()
                 ctx.outcome(k, "refused-unexpectedly")
                 V.append(Violation("C18", "unexpected-refusal", "resample:" + op["via"], {"exception": repr(ex)[:200], "op": op}))
                 self._check_pool(V, k, after_refusal=True)
                 return V
+            os.environ.pop("TANGELO_VERIF_CHUNK_SIZE", None)
             rngseam.SEAM.arm()
             if op.get("bias") and rngseam.SEAM.vector_biased > biased_before:
                 ctx.fault("rng_extreme")
@@ -584,7 +593,11 @@ class HistogramWorld(World):
         hr = random.Random(op["hist_seed"])
         nq = op["nq"]
         hists = {}
-        for basis in groups:
+        order = list(groups)
+        hr.shuffle(order)           # the histogram dictionary is filled in another order than the grouping dictionary
+        if order != list(groups):
+            ctx.probe("C18.histograms_in_other_order_than_groups")
+        for basis in order:
             keys = set()
             while len(keys) < min(2 ** nq, 5):
                 keys.add("".join(hr.choice("01") for _ in range(nq)))
